@@ -1,0 +1,13 @@
+//go:build verif
+
+// Contracts for gzv (contract-based deductive verification, /verif). Comment-only file.
+package internal
+
+// C13 the gRPC resolver publishes the current view on EVERY notification - also when the view has become empty (the last
+// instance went away): exactly one UpdateState per run of the update function, carrying one address per selected value
+//@ func (b *discovBuilder) Build closure 1
+//@   property C13
+//@   call UpdateState#0: assert len(raw0.Addresses) == len(vals) && arg_recv == cc
+//@   loop 0: modifies nothing
+//@   loop 0: invariant len(addrs) == idx
+//@   ensures ccUpdates == old(ccUpdates) + 1
